@@ -253,6 +253,9 @@ enum Op {
     Sess { s: usize, len: u64, k: u8 },
     /// cache loss + public read: remove the thread's full sidecar, then replay_events (rebuild_best_effort)
     DropSideRead { t: usize },
+    /// rip_log::write_snapshot(<data>/snapshots, stream id, the stream's frames) as the end of a session / task does
+    /// (session.rs, tasks/mod.rs finalize_snapshot); no frame is appended to the stream afterwards
+    Snapshot { s: usize },
 }
 
 fn op_json(o: &Op) -> serde_json::Value {
@@ -269,6 +272,8 @@ struct World {
     last_msg: BTreeMap<usize, String>,
     sess_ids: Vec<String>,
     sess_seq: Vec<u64>,
+    /// the frames appended to each session / task stream (what the run task keeps in memory for the snapshot)
+    sess_events: Vec<Vec<Event>>,
     /// ids of the frames the last successful call said it appended (the id the API returned)
     returned: Vec<String>,
     /// what the last ensure_default returned
@@ -284,6 +289,9 @@ fn ws_dir(root: &Path) -> PathBuf {
 fn truth_path(root: &Path) -> PathBuf {
     data_dir(root).join("events.jsonl")
 }
+fn snapshots_dir(root: &Path) -> PathBuf {
+    data_dir(root).join("snapshots")
+}
 fn side_path(root: &Path, id: &str) -> PathBuf {
     data_dir(root).join("continuity_streams").join(format!("{id}.jsonl"))
 }
@@ -295,7 +303,7 @@ impl World {
         let log = Arc::new(EventLog::new(truth_path(root)).expect("event log"));
         let store = ContinuityStore::new(data_dir(root), ws_dir(root), log.clone()).expect("store");
         let n = sess_ids.len();
-        World { root: root.to_path_buf(), log, store, threads, last_msg, sess_ids, sess_seq: vec![0; n], returned: vec![], ensured: None }
+        World { root: root.to_path_buf(), log, store, threads, last_msg, sess_ids, sess_seq: vec![0; n], sess_events: vec![vec![]; n], returned: vec![], ensured: None }
     }
     fn tid(&self, t: usize) -> String {
         self.threads.get(t).cloned().unwrap_or_else(|| NO_THREAD.to_string())
@@ -403,6 +411,7 @@ impl World {
                 while self.sess_ids.len() <= *s {
                     self.sess_ids.push(uuid::Uuid::new_v4().to_string());
                     self.sess_seq.push(0);
+                    self.sess_events.push(vec![]);
                 }
                 let sid = self.sess_ids[*s].clone();
                 let seq = self.sess_seq[*s];
@@ -420,7 +429,16 @@ impl World {
                 self.log.append(&ev).map_err(|e| e.to_string())?;
                 self.returned.push(ev.id.clone());
                 self.sess_seq[*s] += 1;
+                self.sess_events[*s].push(ev);
                 Ok(())
+            }
+            Op::Snapshot { s } => {
+                let Some(sid) = self.sess_ids.get(*s).cloned() else { return Err("no such stream".into()) };
+                let evs = self.sess_events[*s].clone();
+                if evs.is_empty() {
+                    return Err("nothing to snapshot".into());
+                }
+                rip_log::write_snapshot(snapshots_dir(&self.root), &sid, &evs).map(|_| ()).map_err(|e| e.to_string())
             }
             Op::DropSideRead { t } => {
                 let tid = self.tid(*t);
@@ -567,6 +585,17 @@ fn enc_disk(out: &mut Vec<u64>, root: &Path, ids: &Ids, nthreads: usize) {
     }
     enc_idx(out, &index_json_path(root), ids, nthreads);
     enc_idx(out, &index_json_path(root).with_extension("json.tmp"), ids, nthreads);
+    // artifact store: number of complete blobs, number of <id>.tmp files
+    let (mut blobs, mut tmps) = (0u64, 0u64);
+    for e in std::fs::read_dir(ws_dir(root).join(".rip").join("artifacts").join("blobs")).into_iter().flatten().flatten() {
+        if e.file_name().to_string_lossy().ends_with(".tmp") {
+            tmps += 1;
+        } else {
+            blobs += 1;
+        }
+    }
+    out.push(blobs);
+    out.push(tmps);
 }
 
 // ------------------------------------------------------------------ reads (C04 comparison on the recovered store)
@@ -715,6 +744,36 @@ fn missing_artifacts(root: &Path) -> Vec<String> {
     ids.into_iter().filter(|id| !blobs.join(id).is_file()).collect()
 }
 
+fn snapshot_oracle(root: &Path, acked: &IdxAck, ctx: &str, violations: &mut Vec<(String, String)>) {
+    let dir = snapshots_dir(root);
+    let log = EventLog::new(truth_path(root)).expect("log");
+    let mut found = vec![];
+    for e in std::fs::read_dir(&dir).into_iter().flatten().flatten() {
+        let p = e.path();
+        let sid = p.file_stem().map(|x| x.to_string_lossy().to_string()).unwrap_or_default();
+        if p.extension().map(|x| x == "json").unwrap_or(false) {
+            found.push(sid.clone());
+        }
+        match rip_log::read_snapshot(&p) {
+            Err(_) => {
+                if acked.snapshots.contains(&sid) {
+                    violations.push((format!("{ctx} the snapshot of stream {sid}, whose write had returned Ok, no longer reads"), "acked_snapshot_unreadable_after_crash".into()));
+                }
+            }
+            Ok(_) => {
+                if let Err(err) = rip_log::verify_snapshot(&log, &p) {
+                    violations.push((format!("{ctx} the snapshot of stream {sid} parses but is not its stream in the log: {err}"), "snapshot_readable_but_not_the_log".into()));
+                }
+            }
+        }
+    }
+    for sid in &acked.snapshots {
+        if !found.contains(sid) {
+            violations.push((format!("{ctx} the snapshot of stream {sid}, whose write had returned Ok, is gone"), "acked_snapshot_unreadable_after_crash".into()));
+        }
+    }
+}
+
 fn trunc(s: &str) -> String {
     s.chars().take(160).collect()
 }
@@ -763,16 +822,19 @@ fn point_code(name: &str) -> u64 {
 struct MOp {
     term: String,
 }
-fn model_op(op: &Op, lens: &[u64], new_thread: u64) -> MOp {
+fn model_op(op: &Op, lens: &[u64], new_thread: u64, art: u64) -> MOp {
     let l = |i: usize| lens.get(i).cloned().unwrap_or(0);
     let term = match op {
         Op::Ensure => format!("OEnsure {} {}", new_thread, l(0)),
         Op::Msg { t, .. } | Op::RunSpawned { t } | Op::RunEnded { t } | Op::Cursor { t } | Op::SideFx { t } => format!("OAppend {} {}", t, l(0)),
         Op::Sess { s, .. } => format!("OSess {} {}", s, l(0)),
-        Op::Checkpoint { t } => format!("OCheckpoint {} 0 {} {}", t, if lens.is_empty() { "false" } else { "true" }, l(0)),
+        Op::Checkpoint { t } => format!("OCheckpoint {} {art} {} {}", t, if lens.is_empty() { "false" } else { "true" }, l(0)),
         Op::Branch { t } => format!("OBranch {} {} {} {}", t, new_thread, l(0), l(1)),
-        Op::Handoff { t } => format!("OHandoff {} {} 0 {} {}", t, new_thread, l(0), l(1)),
+        Op::Handoff { t } => format!("OHandoff {} {} {art} {} {}", t, new_thread, l(0), l(1)),
         Op::DropSideRead { t } => format!("ODropRead {}", t),
+        // snapshots are not in the model: for the modelled files the op is a no-op (= the read of a thread that does
+        // not exist: no sidecar to drop, no stream to rebuild); its crash points are oracle-only
+        Op::Snapshot { .. } => "ODropRead 999999".to_string(),
     };
     MOp { term }
 }
@@ -785,6 +847,8 @@ struct IdxAck {
     existed: bool,
     /// the default thread an acknowledged ensure_default returned
     default: Option<String>,
+    /// stream ids whose snapshot had been written by a call that returned Ok
+    snapshots: Vec<String>,
 }
 fn index_json_path(root: &Path) -> PathBuf {
     data_dir(root).join("continuities").join("index.json")
@@ -916,6 +980,7 @@ fn run_workload(ops: &[Op], scratch: &Path, wl_json: serde_json::Value, with_mod
     let mut fids: HashMap<String, u64> = HashMap::new();
     let mut recs: Vec<OpRec> = vec![];
     let mut acked: Vec<String> = vec![]; // frame ids of ops that returned Ok
+    let mut snaps_acked: Vec<String> = vec![];
     let mut out = vec![];
     let mut point_ordinal = 0usize;
     for (i, op) in ops.iter().enumerate() {
@@ -924,12 +989,15 @@ fn run_workload(ops: &[Op], scratch: &Path, wl_json: serde_json::Value, with_mod
         }
         let before = truth_len(&root);
         let threads_before = w.threads.len();
-        let idx_before = IdxAck { existed: index_json_path(&root).exists(), default: w.ensured.clone() };
+        let idx_before = IdxAck { existed: index_json_path(&root).exists(), default: w.ensured.clone(), snapshots: snaps_acked.clone() };
         REC.with(|c| c.borrow_mut().as_mut().unwrap().last_hook = "op.start");
         arm_all(true);
         let r = w.exec(op);
         arm_all(false);
-        let idx_after = IdxAck { existed: index_json_path(&root).exists(), default: if r.is_ok() { w.ensured.clone() } else { idx_before.default.clone() } };
+        if let (Op::Snapshot { s }, Ok(())) = (op, &r) {
+            snaps_acked.push(w.sess_ids[*s].clone());
+        }
+        let idx_after = IdxAck { existed: index_json_path(&root).exists(), default: if r.is_ok() { w.ensured.clone() } else { idx_before.default.clone() }, snapshots: snaps_acked.clone() };
         let frames = diff_frames(&root, before);
         for (j, b) in frames.iter().enumerate() {
             fids.insert(b.id.clone(), 4 * i as u64 + j as u64);
@@ -1082,6 +1150,10 @@ fn analyse(
             ));
         }
     }
+    // ---- snapshots: what a restarted authority finds under snapshots/ is either unreadable (read_snapshot fails: the
+    // readers fall back to the log - allowed only for a snapshot whose write had not returned) or equal to its
+    // stream in the log (verify_snapshot)
+    snapshot_oracle(root, idx, &format!("after a crash at {} (op {op_index}, after {})", s.name, s.after), &mut violations);
     // ---- reads on the recovered store before any further write
     // (the bulk variant restarts the same on-disk state: its first reads would repeat those of the plain variant)
     let r0 = if bulk { Ok(None) } else { reads_differ(root, &threads0, scratch, "r0", false) };
@@ -1218,6 +1290,7 @@ fn analyse(
             violations.push((format!("acknowledged frame {} occurs {n} times after a crash at {} (op {op_index})", fids.get(id).cloned().unwrap_or(0), s.name), classify(&[], "acked_not_exactly_once")));
         }
     }
+    snapshot_oracle(root, idx, &format!("after a crash at {} (op {op_index}), restart and follow-ups", s.name), &mut violations);
     // ---- model case
     for r in &more_recs {
         obs.push(r.ok as u64);
@@ -1243,9 +1316,10 @@ fn analyse(
     }
     let modelled = with_model && ops.iter().all(supported_by_model);
     let _ = torn_at_snap;
-    let hist: Vec<String> = recs.iter().map(|r| model_op(&r.op, &r.lens, r.new_thread).term).collect();
+    // (the artifact an op writes is named after the op's index: unique, as the fresh ids of the implementation)
+    let hist: Vec<String> = recs.iter().enumerate().map(|(i, r)| model_op(&r.op, &r.lens, r.new_thread, i as u64).term).collect();
     // ops of the workload that have not run yet are irrelevant to the crash point: the model gets hist = ops up to and including the in-flight one
-    let more_t: Vec<String> = more_recs.iter().map(|r| model_op(&r.op, &r.lens, r.new_thread).term).collect();
+    let more_t: Vec<String> = more_recs.iter().enumerate().map(|(j, r)| model_op(&r.op, &r.lens, r.new_thread, (nprim + j) as u64).term).collect();
     let term = if modelled {
         format!(
             "{{| c_hist := [{}]; c_more_base := {}; c_point := {}%nat; c_more := [{}]; c_nthreads0 := {}%nat; c_nthreads1 := {}%nat; c_expect := {} |}}",
@@ -1279,6 +1353,9 @@ fn thin_workload() -> Vec<Op> {
         Op::Sess { s: 0, len: 300, k: 2 },
         Op::Sess { s: 1, len: 0, k: 3 },
         Op::Msg { t: 0, len: 100_000 },
+        // end of the session and of the task: their snapshots (small payloads: one write at flush)
+        Op::Snapshot { s: 0 },
+        Op::Snapshot { s: 1 },
     ]
 }
 fn boundary_workload() -> Vec<Op> {
@@ -1296,6 +1373,9 @@ fn boundary_workload() -> Vec<Op> {
         Op::SideFx { t: 0 },
         Op::Sess { s: 1, len: 100_000, k: 3 },
         Op::Msg { t: 0, len: 0 },
+        // payloads above the BufWriter capacity: written straight to the file by write_all
+        Op::Snapshot { s: 0 },
+        Op::Snapshot { s: 1 },
     ]
 }
 /// corpus/C05/*.json: {"ops": [{"op": "Msg", "t": 0, "len": 8192}, ..]} — regression workloads (fixed findings)
@@ -1323,6 +1403,7 @@ fn corpus_workloads() -> Vec<Vec<Op>> {
                 "Handoff" => Op::Handoff { t },
                 "Sess" => Op::Sess { s, len, k: o["k"].as_u64().unwrap_or(0) as u8 },
                 "DropSideRead" => Op::DropSideRead { t },
+                "Snapshot" => Op::Snapshot { s },
                 _ => continue,
             });
         }
@@ -1353,10 +1434,13 @@ const N_RICH_QUICK: usize = 2;
 fn gen_workload(r: &mut Rng, n: usize, rich: bool) -> Vec<Op> {
     let mut ops = vec![Op::Ensure];
     let mut nthreads = 1usize;
+    // slot -> stream index in use, does it hold frames; a snapshot closes the stream (the slot moves to a new one)
+    let mut slot = [0usize, 1, 2];
+    let mut has = [false; 3];
     let lens = [0u64, 0, 0, 0, 300, 8190, 8191, 8192, 8193, 20_000, 100_000];
     for _ in 1..n {
         let t = r.below(nthreads as u64) as usize;
-        let k = r.below(if rich { 16 } else { 11 });
+        let k = r.below(if rich { 17 } else { 12 });
         let op = match k {
             0..=3 => Op::Msg { t, len: *r.pick(&lens) },
             4 => Op::RunSpawned { t },
@@ -1365,7 +1449,31 @@ fn gen_workload(r: &mut Rng, n: usize, rich: bool) -> Vec<Op> {
             7 => Op::SideFx { t },
             8 | 9 => {
                 let s = r.below(3) as usize;
-                Op::Sess { s, len: *r.pick(&lens), k: if s == 2 { 3 } else { r.below(3) as u8 } }
+                has[s] = true;
+                Op::Sess { s: slot[s], len: *r.pick(&lens), k: if s == 2 { 3 } else { r.below(3) as u8 } }
+            }
+            11 if !rich => {
+                // end of a session / task: its snapshot
+                let s = r.below(3) as usize;
+                if has[s] {
+                    has[s] = false;
+                    slot[s] += 3;
+                    Op::Snapshot { s: slot[s] - 3 }
+                } else {
+                    has[s] = true;
+                    Op::Sess { s: slot[s], len: *r.pick(&lens), k: if s == 2 { 3 } else { 0 } }
+                }
+            }
+            16 => {
+                let s = r.below(3) as usize;
+                if has[s] {
+                    has[s] = false;
+                    slot[s] += 3;
+                    Op::Snapshot { s: slot[s] - 3 }
+                } else {
+                    has[s] = true;
+                    Op::Sess { s: slot[s], len: *r.pick(&lens), k: if s == 2 { 3 } else { 0 } }
+                }
             }
             10 => {
                 if r.chance(1, 3) {
